@@ -212,6 +212,8 @@ def check(F, run, tier):
     obs, n = c05.member_extents(F, S)
     run.add([o for o in obs if "VolFile" in o.instance])
     run.add(uncompressed_kind(F, S))
+    from ..rules_archive import extract_all_visits_every_member
+    run.add(extract_all_visits_every_member(F, S))
     from ..rules_archive import extraction_always_writes
     ef = F.fn(VOL + "::ExtractFile", nparams=2, pred=lambda f: "basic_string" not in f.key.split("(")[1].split(",")[0])
     run.add(extraction_always_writes(F, ef, VOL + "::ExtractFile"))
